@@ -208,6 +208,16 @@ def corpus(ctx):
         for k in range(11):
             pred[0, 8 + 2 * k:10 + 2 * k] = k + 1          # eleven stray predictions (one of them labelled 1)
         one_case(ctx, pred, ref, [[40, hi]], "corpus.more-strays-than-labels-left")
+    # a missed reference whose label is larger than every label the relabelled prediction needs (no stray prediction, so no fresh
+    # label either): the reference map must come back unchanged whatever width the relabelled prediction is given
+    for dt, big in ((np.uint16, 256), (np.uint16, 300), (np.uint32, 65536), (np.uint32, 70000), (np.uint64, 2 ** 24)):
+        ref = np.zeros((1, 12), dt)
+        pred = np.zeros((1, 12), dt)
+        ref[0, 0:3] = 2
+        pred[0, 0:3] = 7               # matched: 7 -> 2
+        ref[0, 6:9] = big              # missed, the largest label anywhere
+        ctx.count("missed_reference_with_the_largest_label")
+        one_case(ctx, pred, ref, [[7, 2]], "corpus.missed-large-reference")
     # reference labels with gaps: fresh labels must not land on an existing reference label
     ref = np.zeros((1, 12), np.uint8)
     pred = np.zeros((1, 12), np.uint8)
